@@ -195,6 +195,13 @@ Fixpoint forall2b {A B} (f : A -> B -> bool) (l : list A) (l' : list B) : bool :
   | _, _ => false
   end.
 
+(** clauses 8 and 9 as functions of the observation *)
+Definition obs_dones (obs : sx) : list Z := sx_Zs (sx_nth obs 5).
+Definition obs_closes (obs : sx) : list Z := sx_Zs (sx_nth obs 7).
+Definition clause8 (anss : list (list answer)) (dones : list Z) : bool :=
+  forallb (fun d => d =? 1) dones && (length dones =? length anss)%nat.
+Definition clause9 (closes : list Z) : bool := forallb (fun n => n =? 1) closes.
+
 Definition mon16 (inp obs : sx) : list Z :=
   let c := dec_case16 inp in
   let H := lookup (q_tbl c) in
@@ -205,8 +212,8 @@ Definition mon16 (inp obs : sx) : list Z :=
   let delivered := dec_bytes (sx_nth obs 0) in
   let code := sx_Z (sx_nth obs 1) in
   let offd := map sx_Zs (sx_list (sx_nth obs 4)) in
-  let dones := sx_Zs (sx_nth obs 5) in
-  let closes := sx_Zs (sx_nth obs 7) in
+  let dones := obs_dones obs in
+  let closes := obs_closes obs in
   let done := completes m code in
   let trusted := all_bytes_trusted validb (q_b0 c) anss in
   (* the outermost handler: its script, what it was offered *)
@@ -222,9 +229,9 @@ Definition mon16 (inp obs : sx) : list Z :=
   (* 1: Done must be reported exactly once (outermost handler) *)
   (if last dones 0 =? 1 then [] else [1]) ++
   (* 8: Done is reported exactly once to the handler of every level *)
-  (if forallb (fun d => d =? 1) dones && (length dones =? length anss)%nat then [] else [8]) ++
+  (if clause8 anss dones then [] else [8]) ++
   (* 9: every underlying reader is closed exactly once *)
-  (if forallb (fun n => n =? 1) closes then [] else [9]) ++
+  (if clause9 closes then [] else [9]) ++
   (* 10: stacks: the inner handler's error is what the next outer handler is offered, first and
          once; a handler that has answered with an error is not asked again *)
   (if stack_rule anss offd && (length offd =? length anss)%nat
